@@ -186,19 +186,35 @@ struct Box : ISpline
             const auto &cum = s.getCumulativeTimes();
             const int n = s.getNumSegments();
             std::string kv = "[", lv = "[", rv = "[", sd = "[";
-            for (int i = 0; i <= n; ++i)
+            // the knots are visited in ascending or ("desc") descending order; the values are reported in index order either way, together
+            // with the highest derivative of the pieces (it jumps at the knots: evaluation is right-continuous whatever was asked before)
+            const bool desc = cmd.value("desc", false);
+            std::vector<std::string> kvs(n + 1), kjs(n + 1);
+            for (int q = 0; q <= n; ++q)
             {
-                if (i)
-                    kv += ",";
-                kv += "[";
+                const int i = desc ? n - q : q;
+                std::string e = "[";
                 for (int d = 0; d < sh; ++d)
                 {
                     if (d)
-                        kv += ",";
-                    kv += hx::Out::vstr(traj.evaluate(cum[i], d));
+                        e += ",";
+                    e += hx::Out::vstr(traj.evaluate(cum[i], d));
                 }
-                kv += "]";
+                kvs[i] = e + "]";
+                kjs[i] = hx::Out::vstr(traj.evaluate(cum[i], ORDER));
             }
+            std::string kj = "[";
+            for (int i = 0; i <= n; ++i)
+            {
+                if (i)
+                {
+                    kv += ",";
+                    kj += ",";
+                }
+                kv += kvs[i];
+                kj += kjs[i];
+            }
+            o.raw("kj", kj + "]");
             for (int i = 0; i < n; ++i)
             {
                 if (i)
